@@ -223,6 +223,54 @@ def index_case(draw):
     return {"sub": "index", "prefix": prefix, "indels": indels, "adapters": ads, "e": e, "read": read}
 
 
+# ----------------------------------------------------------------------- histories: one index, several reads
+@st.composite
+def history_case(draw):
+    """Several reads through ONE index object (as a worker process does), many of them with N in the anchored
+    end: the answer for a read must not depend on the reads the index has seen before."""
+    c = draw(index_case())
+    reads = [c["read"]]
+    prefix = c["prefix"]
+    for _ in range(draw(st.integers(2, 6))):
+        mid = list(draw(st.sampled_from(c["adapters"])))
+        for _ in range(draw(st.integers(0, 2))):
+            mid[draw(st.integers(0, len(mid) - 1))] = "N"
+        if draw(st.integers(0, 2)) == 0:
+            mid[draw(st.integers(0, len(mid) - 1))] = draw(st.sampled_from("ACGT"))
+        rest = draw(st.text(alphabet="ACGT", max_size=4))
+        reads.append("".join(mid) + rest if prefix else rest + "".join(mid))
+    return dict(c, sub="history", reads=reads)
+
+
+def check_history(case, ctx):
+    from cutadapt.adapters import IndexedPrefixAdapters, IndexedSuffixAdapters
+
+    import logging
+    logging.getLogger().setLevel(logging.ERROR)
+    ads = make_adapters(case)
+    if any(int(len(a) * a.max_error_rate) > 3 for a in ads):
+        ctx.excluded += 1
+        return
+    cls = IndexedPrefixAdapters if case["prefix"] else IndexedSuffixAdapters
+    warmed = cls(ads)
+
+    def tup(m):
+        return None if m is None else [m.adapter.name, m.rstart, m.rstop, m.errors, m.score]
+
+    nt = False
+    for i, read in enumerate(case["reads"]):
+        got = tup(warmed.match_to(read))
+        fresh = tup(cls(make_adapters(case)).match_to(read))
+        if got != fresh:
+            raise Violation(f"{'5' if case['prefix'] else '3'}' anchored adapters {case['adapters']} e={case['e']}: read "
+                            f"{read!r} gives {got} after the reads {case['reads'][:i]}, but {fresh} with a fresh index",
+                            observed=got, expected=fresh)
+        if "N" in read.upper() and i > 0:
+            nt = True
+    if nt:
+        ctx.nontrivial_case({"reads": case["reads"]})
+
+
 # ----------------------------------------------------------------------- CLI / AdapterCutter level
 @st.composite
 def cli_case(draw):
@@ -282,12 +330,15 @@ def check_cli(case, ctx):
 SUBS = {
     "index": Sub(strategy=lambda tier: index_case(), check=check_index),
     "cli": Sub(strategy=lambda tier: cli_case(), check=check_cli),
+    "history": Sub(strategy=lambda tier: history_case(), check=check_history),
 }
 
 
 def plan(tier):
     if tier == "quick":
         return [{"sub": "index", "kind": "hyp", "examples": 1200} for _ in range(12)] + \
-               [{"sub": "cli", "kind": "hyp", "examples": 200} for _ in range(4)]
+               [{"sub": "cli", "kind": "hyp", "examples": 200} for _ in range(4)] + \
+               [{"sub": "history", "kind": "hyp", "examples": 400} for _ in range(2)]
     return [{"sub": "index", "kind": "hyp", "examples": 20000} for _ in range(14)] + \
-           [{"sub": "cli", "kind": "hyp", "examples": 3000} for _ in range(4)]
+           [{"sub": "cli", "kind": "hyp", "examples": 3000} for _ in range(4)] + \
+           [{"sub": "history", "kind": "hyp", "examples": 6000} for _ in range(3)]
